@@ -62,6 +62,52 @@ def run(ctx):
     # also when a record is abandoned half-way (shared with C14)
     from .c14 import pool_rule
     pool_rule(ctx)
+    fieldnames_rule(ctx)
+
+
+def fieldnames_rule(ctx):
+    """the record's name -> position table, which the serializer finds a presented field with, holds ONE position per
+    name: where it is built (freeze) every insertion is checked and a name met twice is an error.  Collecting
+    (name, position) pairs keeps the last position for a repeated name while the in-order fast path takes the first
+    field not yet written: with fields [x, a, a] the bytes then depend on where x was presented"""
+    f = ctx.f
+    from .c03 import fn_by_label
+    tf = fn_by_label(f, '<schema::self_referential::Schema as core::convert::TryFrom>::try_from')
+    if tf is None:
+        ctx.ob('FIELDNAMES', 'anchor', False, None, 'freeze not found')
+        return
+    ctx.touched(tf)
+    ok, det = False, 'no Record aggregate with a per_name_lookup found in freeze'
+    fam = [tf] + f.closures_of(tf)
+    for b in fam:
+        for bb in sorted(b.live_blocks()):
+            if b.is_cleanup(bb):
+                continue
+            for s_ in b.stmts(bb):
+                if 'assign' in s_ and s_['rv']['k'] == 'agg' and (s_['rv'].get('adt') or '').endswith('self_referential::Record') and 'per_name_lookup' in (s_['rv'].get('fields') or []):
+                    o = origin(b, s_['rv']['ops'][s_['rv']['fields'].index('per_name_lookup')])
+                    collected = any((c.get('callee') or '').endswith(('Iterator::collect', 'FromIterator::from_iter', 'Extend::extend')) for c in o.calls)
+                    checked = False
+                    for x in fam:
+                        for ib, it in x.calls():
+                            if cname(it).endswith('HashMap::<K, V, S, A>::insert') and not x.is_cleanup(ib) and 'String' in ' '.join(it.get('arg_tys', [])[1:2]):
+                                # the Option it returns is looked at and Some => Err
+                                for cb2, ct in x.calls():
+                                    if strip_generics(cname(ct)).endswith(('Option::is_some', 'Option::is_none')) and any(c is it for c in origin(x, ct['args'][0]).calls):
+                                        sw = ct.get('target')
+                                        if sw is not None and x.term(sw)['k'] == 'switch':
+                                            t0 = [y['bb'] for y in x.term(sw)['targets'] if y['v'] == 0]
+                                            some_edge = x.term(sw)['otherwise'] if strip_generics(cname(ct)).endswith('is_some') else (t0[0] if t0 else None)
+                                            checked = checked or (some_edge is not None and all_paths_err(x, some_edge))
+                                for sbb in sorted(x.live_blocks()):
+                                    if x.term(sbb)['k'] == 'switch':
+                                        si = x.switch_info(sbb)
+                                        if si.get('kind') == 'enum' and si.get('adt') == 'core::option::Option' and si['place'].get('l') == (it.get('dest') or {}).get('l'):
+                                            sb = si['variants'].get('Some')
+                                            checked = checked or (sb is not None and all_paths_err(x, sb))
+                    ok = not collected and checked
+                    det = 'per_name_lookup collected from (name, position) pairs (a repeated name keeps its last position): %s; built by insertions whose "already there" answer returns Err: %s' % (collected, checked)
+    ctx.ob('FIELDNAMES', 'one-position-per-name', ok, short_loc(tf.span), det)
 
 
 def pair_positions(body_or_tys, facts):
